@@ -1,4 +1,5 @@
 import Typegen.RunTheorems
+import Typegen.Theorems.C08
 /-! # C17 — a failed run is never remembered as up to date
 
 The plan of a regenerating run is `removeCache :: writes ++ [writeCache key]`: the record is invalidated
@@ -57,5 +58,22 @@ example : ((exec exS { src := 0, cfg := (), out := { files := fun _ => none, cac
            (exec exS { src := 0, cfg := (), out := { files := fun _ => none, cache := none } } exHist).out.files "commands.ts",
            (exec exS { src := 0, cfg := (), out := { files := fun _ => none, cache := none } } exHist).out.cache)
     = (some 0, some 100, some 0) := by decide +kernel
+
+/-! ## the modelled tool itself (analysis model + generator model behind the run model): no hypothesis about the key -/
+open TG.C08 in
+/-- every crash point of a run of the modelled tool leaves a directory whose cache record vouches only for files that are
+    current or missing -/
+theorem C17_every_prefix_concrete (src : Pj.Project) (cfg : Gn.Config) (o : Out (KS.View × Gn.Config) Str)
+    (hI : Inv concreteSys o) (k : Nat) : Inv concreteSys (crashed concreteSys src cfg k o) :=
+  C17_every_prefix concreteSys src cfg o concrete_keySound (concrete_namesDistinct src cfg) hI k
+
+open TG.C08 in
+/-- recovery for the modelled tool: after any history (faulty runs included) from an empty output directory, the next
+    successful non-forced run ends with every file of a fresh generation in place -/
+theorem C17_recovery_concrete (src : Pj.Project) (cfg : Gn.Config) (h : List (Step Pj.Project Gn.Config)) :
+    let w := exec concreteSys { src := src, cfg := cfg, out := { files := fun _ => none, cache := none } } h
+    concreteSys.empty w.src = false → (run concreteSys w.src w.cfg false none w.out).1 = .ok →
+    Current (run concreteSys w.src w.cfg false none w.out).2.2 (concreteSys.gen w.src w.cfg) :=
+  C17_recovery concreteSys concrete_keySound concrete_namesDistinct _ (inv_empty concreteSys) h
 
 end TG.C17
